@@ -52,7 +52,7 @@ def main():
             dst = "/verif/seeded/%s/%s" % (pid, k)
             os.makedirs(dst, exist_ok=True)
             for f in glob.glob(d + "/*"):
-                if os.path.isfile(f) and not f.endswith("meta.json"): shutil.copy(f, dst)
+                if os.path.isfile(f) and not f.endswith("meta.json") and os.path.abspath(os.path.dirname(f)) != dst: shutil.copy(f, dst)
             meta["_orig_dir"] = meta.get("_orig_dir") or d
             meta["demo_cmd"] = meta["demo_cmd"].replace(meta["_orig_dir"], dst)
             meta["confirmed"] = dict(by="tools/verify_seed.py in a scratch worktree of /repo", demo_clean_rc=r0, suite_with_patch=os_.strip(),
